@@ -1111,7 +1111,7 @@ const Property C05 = {
     "optional, four return policies) with a list of 0..5 items whose class and value are known by construction (DEC incl. .5 forms, DEC+suffix known/unknown, #H/#Q/#B, "
     "mnemonics in/outside the bool/choice/special lists, both quote styles, blocks, expressions), blanks on either side of commas, malformed fragments on the last unit; "
     "per reader call the return value, the raised codes and the delivered value/extent are compared with table A.1, per unit the -108/-200 accounting, per input call the "
-    "return value. distinct_nontrivial = distinct canonical trace hashes.",
+    "return value. Also: the application's own unit table (mixed-case and compound names), compound/exponent suffixes, choice tags -1/0/INT32 extremes and lower-case names, blanks inside exponents, literals with hundreds of leading zeros, lists of 100..900 items read by array readers with room for 1024, blocks >= 64 KiB, exact-fit text buffers, entries without callback. distinct_nontrivial = distinct canonical trace hashes.",
 };
 PropertyRegistrar r05(&C05);
 
